@@ -167,6 +167,7 @@ type emPlan struct {
 	fresh     map[string]freshSpec
 	failFirst bool // attempt 1 returns an error (and no messages); the harness redelivers once
 	wait      bool // the stream waits for the settlement before its next emission
+	stale     bool // emit with a context that already carries ANOTHER handler's router values (a message forwarded in-process from another hop)
 	yields    int
 	shape     string
 }
@@ -226,6 +227,8 @@ type caseState struct {
 	streams  [][]*emPlan
 	spis     []spInfo
 	driveSeq bool
+	ctxOf    map[int]context.Context // handler index -> a message context seen inside that handler
+	staleN   atomic.Int32
 }
 
 func eidOf(m *message.Message) string { return m.Metadata.Get("vemit") }
@@ -284,6 +287,10 @@ func (c *caseState) invoke(h int, msg *message.Message, canReturn bool) ([]*mess
 	rec := invRec{eid: eid, h: h, ctx: readCtx(msg.Context()), snap: vlib.Snap(msg), ptr: msg}
 	c.mu.Lock()
 	c.invs = append(c.invs, rec)
+	if c.ctxOf == nil {
+		c.ctxOf = map[int]context.Context{}
+	}
+	c.ctxOf[h] = msg.Context()
 	c.mu.Unlock()
 	p, att := c.planFor(eid)
 	if p == nil {
@@ -518,6 +525,7 @@ func (c *caseState) generate() {
 		var st []*emPlan
 		for j := 0; j < n; j++ {
 			p := &emPlan{stream: i, j: j, uuid: fmt.Sprintf("%s/m%d.%d", id, i, j), payload: r.Payload(16), meta: randMeta(r), fresh: map[string]freshSpec{}}
+			p.stale = r.Chance(0.3)
 			var s1, s2 string
 			p.fnOuts, s1 = genOuts(r)
 			p.mwOuts, s2 = genMwOuts(r)
@@ -568,6 +576,32 @@ func (c *caseState) emit(spi int, p *emPlan, attempt int) *emission {
 	}
 	m.Metadata.Set("vemit", eid)
 	m.SetContext(sp.Ctx)
+	if p.stale {
+		// A message handed over in-process from another handler hop still carries that hop's router values; the
+		// router must replace them. Only used where every handler of the target group sets all five values
+		// (watermill leaves a value untouched when the handler's own value is empty).
+		c.mu.Lock()
+		allSet := true
+		sameGroup := map[int]bool{}
+		for _, h := range c.hs {
+			if h.sub == c.spis[spi].sub && h.subTopic == sp.Topic {
+				sameGroup[h.idx] = true
+				if h.pubKind != pubReal || h.pubTopic == "" || h.subTopic == "" {
+					allSet = false
+				}
+			}
+		}
+		if allSet {
+			for k, cx := range c.ctxOf {
+				if !sameGroup[k] {
+					m.SetContext(cx)
+					c.staleN.Add(1)
+					break
+				}
+			}
+		}
+		c.mu.Unlock()
+	}
 	em := &emission{eid: eid, plan: p, attempt: attempt, sp: spi, msg: m, snap: vlib.Snap(m)}
 	c.mu.Lock()
 	c.emitted = append(c.emitted, em)
@@ -902,6 +936,7 @@ func (c *caseState) judge(res *vlib.Result, spStream []int) {
 			callsBy[owner] = append(callsBy[owner], attributed{pi, pc})
 		}
 	}
+	res.Count("emissions_with_another_hops_context", int(c.staleN.Load()))
 	res.Count("publish_calls", nCalls)
 	res.Count("published_msgs", nMsgs)
 
